@@ -369,20 +369,29 @@ type OnListValueChange func(update reflect.Value)
 
 func (self Reflect) childMap(v reflect.Value) node.Node {
 	e := v.Type().Elem()
-	return &Basic{
-		Peekable: v.Interface(),
-		OnChoose: func(state *node.Selection, choice *meta.Choice) (m *meta.ChoiceCase, err error) {
-			for _, c := range choice.Cases() {
-				for _, d := range c.DataDefinitions() {
-					mapKey := reflect.ValueOf(d.Ident())
-					mapVal := v.MapIndex(mapKey)
-					if mapVal.IsValid() {
+	var choose func(state *node.Selection, choice *meta.Choice) (m *meta.ChoiceCase, err error)
+	choose = func(state *node.Selection, choice *meta.Choice) (m *meta.ChoiceCase, err error) {
+		for _, c := range choice.Cases() {
+			for _, d := range c.DataDefinitions() {
+				if nested, isChoice := d.(*meta.Choice); isChoice {
+					// data of a choice inside this case selects this case too
+					if chosen, _ := choose(state, nested); chosen != nil {
 						return c, nil
 					}
+					continue
+				}
+				mapKey := reflect.ValueOf(d.Ident())
+				mapVal := v.MapIndex(mapKey)
+				if mapVal.IsValid() {
+					return c, nil
 				}
 			}
-			return nil, nil
-		},
+		}
+		return nil, nil
+	}
+	return &Basic{
+		Peekable: v.Interface(),
+		OnChoose: choose,
 		OnChild: func(r node.ChildRequest) (node.Node, error) {
 			mapKey := reflect.ValueOf(r.Meta.Ident())
 			var childInstance reflect.Value
